@@ -213,6 +213,7 @@ def child_lifecycle(case):
     for f in case['faults']:
         if f.startswith('plugin') and f[6].isdigit():
             plugins.FAULTS[('Life%s' % f[6], 'shutdown')] = '*'
+            plugins.BARE_FAULTS[0] = case['nplug'] % 2 == 0     # half of the lifecycles: failures without a message
 
     def pre_sys(frame, event, arg):
         return None
